@@ -76,6 +76,13 @@ prop("C05",
   classes=["tag-touches-boundary", "tag-spans-3-regions", "tag-on-chrom-without-regions", "duplicated-regions", "empty-region-list", "reset-at-start", "reset-twice", "reset-between", "multiplicity-0", "multiplicity-negative", "multiplicity-large", "insert-at-index"],
   extra_trusted=["f64 accumulation of integers is exact below 2^53"])
 
+prop("C06",
+  level_text="Proof (Lean 4): for a non-empty region overlapped by a tag the inclusive bin range computed by the code involves no unsigned underflow, stays in range, and consists of exactly the bins the tag overlaps (C06_bin_iff); the bins are the pieces of split_by_len (C06_bins_are_split, shared geometry with C14); for every list of non-empty regions, bin >= 1 and every insert/reset history the dense counter never panics and each bin holds the summed multiplicity of the tags overlapping that bin on the same chromosome since the last reset (C06_dense); the sparse counter's vector equals the flattened dense matrix (C06_sparse_eq_dense); len is the total number of bins and accu[i] + b enumerates bins region by region in tiling order (C06_len, C06_flat_index); get_region / get_chrom return exactly that bin for every valid index and None for every index >= len, in particular on the empty region list (C06_getRegion, C06_getChrom).",
+  level_note="Trusted: " + KERNEL + "; " + MODEL + "; " + HARN + "; std slice::binary_search contract on a strictly increasing vector (modelled); BTreeMap as sorted association list; counters are mathematical integers; NoOverflow: region.end + bin <= u64::MAX; f64 totals exact below 2^53.",
+  explanation="Theorems in lean/BedVerif/Props/C06.lean; lemmas in Lemmas/C06{Arith,Accu,Dense,Sparse}.lean (about 1050 lines). Correspondence: after every op the dense matrix, the sparse vector and both totals; finally len, regions() of both counters, get_region(i), get_chrom(i) for i in 0..len+3 (under catch_unwind); the spec (per-bin sums over the history, tiling, lookups) is evaluated in Lean on the implementation's output.",
+  classes=["bin-1", "bin-divides", "bin-not-divides", "bin-eq-len", "bin-gt-len", "tag-starts-before-region", "tag-ends-after-region", "tag-start-on-bin-edge", "tag-end-on-bin-edge", "one-base-tag-in-first-bin", "one-base-tag-in-last-bin", "tag-spans-all-bins", "empty-region-list", "duplicated-regions", "reset"],
+  extra_trusted=["slice::binary_search contract"])
+
 prop("C18",
   level_text="Proof (Lean 4): for every history over non-empty intervals, merge_overlaps yields a canonical list (non-empty, ascending, pairwise disjoint and non-adjacent) covering exactly the positions covered before, and applying it again changes nothing (C18_merge_canonical, C18_mergeList_canonical); a canonical list is determined by its covered set, so it is THE minimal disjoint non-adjacent cover (C18_canonical_unique), and it equals the specification-level canonical cover (maximal runs of the covered predicate) the driver computes (C18_merge_eq_canonicalCover); merges never change the covered set relative to the supplied intervals (C18_covered_supplied); the overlaps_merged flag implies canonical content (C18_merged_flag); afterwards find, count and seek answer for the current content and a later insert adds exactly its interval (C18_queries_after, C18_insert_after).",
   level_note="Trusted: " + KERNEL + "; " + MODEL + "; " + HARN + "; " + NAT + "; the driver evaluates the position-enumerating spec only when all coordinates are <= 60000 and otherwise compares with the proved model only.",
